@@ -3,6 +3,7 @@
 Engine-level file: builds symbolic pre-states and says which clauses (contracts/clauses_core.py) are
 obligations of which function.  Bounds per tier are stated in each group."""
 from pyvc import sym, shapes, heap
+from pyvc.interp import ClassRef
 from pyvc.harness import Group, ContractRun, Clause, run_contract
 from pyvc.sym import PObj, PList, PDict, PSlice, i_cmp, b_and, b_or
 
@@ -397,8 +398,9 @@ GROUPS.append(Group('G2e', '__getitem__ on texts containing ESC, [ and m (no re-
 
 
 # ============================================================================================= F2
-CL_F2 = [Clause('results-are-new-objects', 'post_scrub_unique')]
-CL_F2T = [Clause('results-are-new-objects', 'post_scrub_unique'), Clause('flattened-in-order', 'post_scrub_flattens')]
+CL_F2 = [Clause('results-are-new-objects', 'post_scrub_unique'), Clause('two-calls-share-no-object', 'post_scrub_twice_disjoint')]
+CL_F2T = [Clause('results-are-new-objects', 'post_scrub_unique'), Clause('two-calls-share-no-object', 'post_scrub_twice_disjoint'),
+          Clause('flattened-in-order', 'post_scrub_flattens')]
 F2_FORMS = ['one', 'list2', 'nested', 'tuple-nested', 'deep', 'enum-bold', 'enum-ul-red', 'name', 'enum-in-list',
             'name-in-tuple']
 
@@ -436,7 +438,7 @@ def f2_task(envr, item):
         else:
             arg = ('ul_red', s1)
         run_contract(envr, c, '_AnsiSettingPoint._scrub_ansi_settings', None, [arg, True], {},
-                     CL_F2T if only_settings else CL_F2, frame=('settings',))
+                     CL_F2T if only_settings else CL_F2, frame=('settings',), fields={'SP': ClassRef('_AnsiSettingPoint')})
     return ContractRun(body, CL_F2T if only_settings else CL_F2, frame=('settings',))
 
 
